@@ -327,3 +327,79 @@ def api_schedules(rng, props, n, max_len=25, local=True):
             sc.add(a="get_event")
         out.append(sc.s)
     return out
+
+
+# ---------------------------------------------------------------------------------------------------------------
+# C11: several clients, broadcast, one misbehaving / stalled client or channel
+# ---------------------------------------------------------------------------------------------------------------
+def multi_schedules(rng, props, n, full):
+    out = []
+    for i in range(n):
+        conns = [1, 2, 3] if rng.random() < 0.7 else [1, 2]
+        kinds = rng.choice([["RO", "U"], ["U", "RU", "RO"], ["RO", "RU"], ["RU", "U", "RO"]])
+        chans = [chan(j, k, resend=rng.choice([100, 300])) for j, k in enumerate(kinds)]
+        mode = rng.choice(["plain", "hostile", "stalled", "stalled_channel", "disconnect"])
+        bad = rng.choice(conns)
+        cfg = {"conns": conns, "sc": chans, "cs": chans, "budget": rng.choice([60000, 60000, 20000]), "seqbase": 0, "midbase": 0, "props": props,
+               "victims": [bad] if mode == "hostile" else []}
+        sc = Sched("multi-%d-%s" % (i, mode), cfg)
+        dt = rng.choice([100, 300])
+        big_sent = False
+        for t in range(rng.randint(4, 25)):
+            for _ in range(rng.randint(0, 3)):
+                r = rng.random()
+                c = rng.choice(chans)
+                ln = rng.choice([0, 5, 100, 700, 1201, 2401])
+                if r < 0.3:
+                    tag = 0 if ln == 0 else sc.tag
+                    sc.tag += 1
+                    sc.backlog += ln * len(conns)
+                    sc.add(a="bcast", ch=c["id"], tag=tag, len=ln, **{"except": rng.choice([0, 0] + conns)})
+                elif r < 0.65:
+                    sc.send(rng.choice(conns), "S", c["id"], ln)
+                else:
+                    sc.send(rng.choice(conns), "C", c["id"], ln)
+            if mode == "stalled_channel" and not big_sent and t >= 1:
+                # a reliable channel early in the order with more un-acknowledged sliced data than one tick of budget
+                first_rel = next((c for c in chans if c["kind"] != "U"), None)
+                if first_rel:
+                    sc.send(bad, "S", first_rel["id"], 64800)
+                    big_sent = True
+            sc.add(a="update", conn=0, side="S", dt=dt)
+            for cn in conns:
+                sc.add(a="update", conn=cn, side="C", dt=dt)
+            for cn in conns:
+                sc.add(a="flush", conn=cn, side="S")
+                sc.add(a="flush", conn=cn, side="C")
+            for cn in conns:
+                stalled_now = (mode in ("stalled",) and cn == bad)
+                for _ in range(rng.randint(0, 8)):
+                    to = rng.choice("SC")
+                    if stalled_now:
+                        continue
+                    if mode == "stalled_channel" and cn == bad and to == "S":
+                        continue  # acknowledgements of the misbehaving client never arrive
+                    r = rng.random()
+                    sel = 0 if rng.random() < 0.6 else rng.randint(0, 99)
+                    if r < 0.65:
+                        sc.add(a="deliver", conn=cn, to=to, sel=sel, keep=False)
+                    elif r < 0.75:
+                        sc.add(a="deliver", conn=cn, to=to, sel=sel, keep=True)
+                    elif r < 0.9:
+                        sc.add(a="drop", conn=cn, to=to, sel=sel)
+                if mode == "hostile" and cn == bad and rng.random() < 0.5:
+                    kind, b = rng.choice(hostile_structural(rng, full=False)[:400] or [("x", b"\xff")])
+                    sc.add(a="hostile", conn=cn, to=rng.choice("SC"), hex=b.hex(), shape=kind, ctx="multi")
+                if mode == "disconnect" and cn == bad and t == 3:
+                    sc.add(a="api", conn=cn, side=rng.choice("SC"), call="disconnect")
+                for side, chs in (("S", chans), ("C", chans)):
+                    for c in chs:
+                        if rng.random() < 0.5:
+                            sc.add(a="recv", conn=cn, side=side, ch=c["id"])
+        b = bound(300, dt, sc.backlog, cfg["budget"])
+        good = [c for c in conns if not (mode in ("hostile", "stalled", "stalled_channel", "disconnect") and c == bad)]
+        for c in good:
+            sc.add(a="heal", conn=c, bound=b)
+        sc.add(a="round", conn=0, dt=dt, n=b + 2)
+        out.append(sc.s)
+    return out
